@@ -461,3 +461,285 @@ Proof.
   rewrite Eb in HW. apply buf_wf_app in HW. destruct HW as [_ HW]. apply buf_wf_app in HW. destruct HW as [HWx _].
   rewrite split_text_concat by exact HWx. rewrite <- Lp, set_row_decomp. symmetry. exact Eb.
 Qed.
+
+(* ====================================================================================== *)
+(* C08_utf8: every command keeps the buffer and the registers valid UTF-8                   *)
+(* ====================================================================================== *)
+Lemma valid_nil : valid [].
+Proof. exists []. split; [constructor|reflexivity]. Qed.
+Lemma valid_app s t : valid s -> valid t -> valid (s ++ t).
+Proof.
+  intros (a & Ha & ->) (c & Hc & ->). exists (a ++ c). split; [apply Forall_app; split; assumption|]. symmetry. apply chars_app.
+Qed.
+Lemma regs0_valid : regs_valid regs0.
+Proof. intros c t ln H. discriminate. Qed.
+Lemma upd_valid R c t ln : regs_valid R -> valid t -> regs_valid (upd R c (Some (t, ln))).
+Proof.
+  intros HR Ht d t' ln' H. unfold upd in H. destruct (N.eqb d c); [inversion H; subst; exact Ht|eapply HR, H].
+Qed.
+Lemma reg_putraw_valid R c s ln : regs_valid R -> valid s -> regs_valid (reg_putraw R c s ln).
+Proof.
+  intros HR Hs. unfold reg_putraw. apply upd_valid; [exact HR|]. apply valid_app; [|exact Hs].
+  destruct (c_isupper c); [|apply valid_nil]. destruct (R (c_tolower c)) as [[t l]|] eqn:E; [eapply HR, E|apply valid_nil].
+Qed.
+Lemma rot_step_valid R d : regs_valid R -> regs_valid (rot_step R d).
+Proof.
+  intro HR. unfold rot_step, reg_get. destruct (R _) as [[t l]|] eqn:E; [|exact HR]. apply reg_putraw_valid; [exact HR|eapply HR, E].
+Qed.
+Lemma rotate_valid R : regs_valid R -> regs_valid (rotate R).
+Proof.
+  unfold rotate. generalize rot_digits. intro ds. revert R. induction ds as [|d ds IH]; intros R HR; cbn [fold_left]; [exact HR|].
+  apply IH, rot_step_valid, HR.
+Qed.
+Lemma reg_put_valid R c s ln : regs_valid R -> valid s -> regs_valid (reg_put R c s ln).
+Proof.
+  intros HR Hs. unfold reg_put. apply reg_putraw_valid; [|exact Hs].
+  destruct (_ && _); [|exact HR]. apply reg_putraw_valid; [apply rotate_valid, HR|exact Hs].
+Qed.
+Lemma reg_get_valid R c t ln : regs_valid R -> reg_get R c = Some (t, ln) -> valid t.
+Proof. intros HR H. unfold reg_get in H. eapply HR, H. Qed.
+
+(* closure of line_valid *)
+Lemma lv_app x y : line_valid x -> line_valid y -> line_valid (x ++ y).
+Proof. intros. unfold line_valid in *. apply Forall_app. split; assumption. Qed.
+Lemma lv_nil : line_valid [].
+Proof. constructor. Qed.
+Lemma lv_cons c x : chr_valid c -> line_valid x -> line_valid (c :: x).
+Proof. intros. constructor; assumption. Qed.
+Lemma lv_firstn n x : line_valid x -> line_valid (firstn n x).
+Proof. apply Forall_firstn'. Qed.
+Lemma lv_skipn n x : line_valid x -> line_valid (skipn n x).
+Proof. apply Forall_skipn'. Qed.
+Lemma lv_removelast x : line_valid x -> line_valid (removelast x).
+Proof. intro H. rewrite removelast_firstn_len. apply lv_firstn, H. Qed.
+Lemma ascii_valid (x : N) : (0 < x <= 127)%N -> chr_valid [x].
+Proof.
+  intro H. exists x. split; [unfold scalar; lia|]. unfold encode. destruct (N.ltb_spec x 128); [reflexivity|lia].
+Qed.
+Lemma lv_repeat (x : N) n : (0 < x <= 127)%N -> line_valid (repeat [x] n).
+Proof. intro H. induction n; cbn [repeat]; [constructor|constructor; [apply ascii_valid, H|exact IHn]]. Qed.
+Lemma lv_repeat_app n x : line_valid x -> line_valid (repeat_app n x).
+Proof. intro H. induction n; cbn [repeat_app]; [constructor|apply lv_app; assumption]. Qed.
+Lemma lv_tl c x : line_valid (c :: x) -> line_valid x.
+Proof. intro H. inversion H; assumption. Qed.
+
+Lemma case_chr_valid op c : chr_valid c -> chr_valid (case_chr op c).
+Proof.
+  intros (k & Hk & ->). unfold encode.
+  destruct (N.ltb_spec k 128).
+  - cbn [case_chr]. destruct (N.leb_spec k 127); [|lia]. apply ascii_valid. unfold scalar in Hk.
+    unfold c_tolower, c_toupper, c_islower, c_isupper.
+    destruct op; repeat match goal with |- context [if ?c then _ else _] => destruct c eqn:? end; lia.
+  - exists k. split; [exact Hk|]. unfold encode. destruct (N.ltb_spec k 128); [lia|].
+    destruct (N.ltb_spec k 2048); [|destruct (N.ltb_spec k 65536)]; cbn [case_chr];
+    match goal with |- context [(?h <=? 127)%N] => destruct (N.leb_spec h 127); [lia|reflexivity] end.
+Qed.
+Lemma lv_map_case op x : line_valid x -> line_valid (map (case_chr op) x).
+Proof. unfold line_valid. induction 1; cbn [map]; constructor; [apply case_chr_valid; assumption|assumption]. Qed.
+
+(* insert mode *)
+Lemma nl_line_valid : line_valid [nlc].
+Proof. apply lv_cons; [apply nlc_valid|apply lv_nil]. Qed.
+Lemma span_blank_valid x : line_valid x -> line_valid (fst (span_blank x)) /\ line_valid (snd (span_blank x)).
+Proof.
+  unfold line_valid. induction 1 as [|c x Hc Hx IH]; cbn [span_blank]; [split; constructor|].
+  destruct (is_blankc c); [|split; [constructor|constructor; assumption]].
+  destruct (span_blank x) as [a z]. cbn [fst snd] in *. destruct IH. split; [constructor; assumption|assumption].
+Qed.
+Lemma span_blank_n_valid n : forall x, line_valid x -> line_valid (fst (span_blank_n n x)) /\ line_valid (snd (span_blank_n n x)).
+Proof.
+  induction n as [|n IH]; intros x Hx; cbn [span_blank_n]; [split; [constructor|exact Hx]|].
+  destruct x as [|c x]; [split; constructor|]. destruct (is_blankc c); [|split; [constructor|exact Hx]].
+  inversion Hx; subst. destruct (IH x ltac:(assumption)) as [A B]. destruct (span_blank_n n x) as [a z]. cbn [fst snd] in *.
+  split; [constructor; assumption|assumption].
+Qed.
+Lemma led_key_valid pe st k : line_valid (fst st) -> line_valid (snd st) -> chr_valid k ->
+  line_valid (fst (led_key pe st k)) /\ line_valid (snd (led_key pe st k)).
+Proof.
+  destruct st as [sb ai]. cbn [fst snd]. intros Hs Ha Hk. unfold led_key.
+  repeat match goal with |- context [if ?c then _ else _] => destruct c eqn:? end; cbn [fst snd];
+    repeat split; try assumption; try apply lv_removelast; try apply lv_firstn; try apply lv_nil; try assumption.
+  all: try (apply lv_app; [assumption|]; apply lv_cons; [|apply lv_nil]; first [assumption|apply ascii_valid; lia]).
+  all: try (destruct sb as [|c0 r]; [assumption|]; destruct (is_blankc c0); [eapply lv_tl; eassumption|assumption]).
+Qed.
+Lemma led_line_valid pe keys : forall st, line_valid keys -> line_valid (fst st) -> line_valid (snd st) ->
+  line_valid (fst (fold_left (led_key pe) keys st)) /\ line_valid (snd (fold_left (led_key pe) keys st)).
+Proof.
+  induction keys as [|k keys IH]; intros st Hk H1 H2; cbn [fold_left]; [split; assumption|].
+  inversion Hk; subst. destruct (led_key_valid pe st k H1 H2 ltac:(assumption)) as [A B]. apply IH; assumption.
+Qed.
+Lemma split_typed_valid t : line_valid t -> Forall line_valid (split_typed t).
+Proof.
+  unfold line_valid. induction 1 as [|k t Hk Ht IH]; cbn [split_typed]; [repeat constructor|].
+  destruct (is_nlb k); [constructor; [constructor|exact IH]|].
+  destruct (split_typed t) as [|s0 ss]; [repeat constructor; assumption|].
+  inversion IH; subst. constructor; [constructor; assumption|assumption].
+Qed.
+Lemma led_loop_valid segs : forall pref post ai acc, Forall line_valid segs -> line_valid pref -> line_valid post -> line_valid ai -> line_valid acc ->
+  line_valid (fst (led_loop segs pref post ai acc)) /\ line_valid (snd (led_loop segs pref post ai acc)).
+Proof.
+  induction segs as [|seg rest IH]; intros pref post ai acc Hs Hp Hq Ha Hc; cbn [led_loop].
+  - cbn [fst snd]. split; [apply lv_app; assumption|assumption].
+  - inversion Hs; subst. unfold led_line.
+    match goal with |- context [fold_left ?f seg ?st] =>
+      destruct (led_line_valid (is_nil pref) seg st ltac:(assumption) lv_nil Ha) as [L1 L2];
+      destruct (fold_left f seg st) as [ln ai'] eqn:EF end. cbn [fst snd] in L1, L2.
+    cbv zeta. match goal with |- context [if is_nil rest then (?a ++ post, post) else _] => set (acc' := a) end.
+    assert (Hacc : line_valid acc').
+    { assert (H_ai : forall c : bool, line_valid (if c then ai' else [])) by (intros []; [exact L2|apply lv_nil]).
+      assert (H_nl : forall c : bool, line_valid (if c then [] else [nlc])) by (intros []; [apply lv_nil|apply nl_line_valid]).
+      unfold acc'. apply lv_app; [exact Hc|]. apply lv_app; [apply H_ai|]. apply lv_app; [exact Hp|]. apply lv_app; [exact L1|apply H_nl]. }
+    clearbody acc'. destruct rest as [|s1 rest']; cbn [is_nil].
+    + cbn [fst snd]. split; [apply lv_app; assumption|assumption].
+    + apply IH; try assumption; [apply lv_nil|apply span_blank_valid, Hq|].
+      destruct (is_nil pref); [apply lv_app; [exact L2|apply lv_firstn, L1]|exact L2].
+Qed.
+Lemma led_input_valid pref post typed : line_valid pref -> line_valid post -> line_valid typed ->
+  line_valid (fst (led_input pref post typed)) /\ line_valid (snd (led_input pref post typed)).
+Proof.
+  intros Hp Hq Ht. unfold led_input. destruct (span_blank_n_valid ai_max pref Hp) as [A B].
+  destruct (span_blank_n ai_max pref) as [ai pref']. cbn [fst snd] in A, B.
+  apply led_loop_valid; try assumption; [apply split_typed_valid, Ht|apply lv_nil].
+Qed.
+Lemma vi_input_valid pref post typed : line_valid pref -> line_valid post -> line_valid typed ->
+  line_valid (fst (fst (fst (vi_input pref post typed)))).
+Proof.
+  intros Hp Hq Ht. unfold vi_input. destruct (led_input_valid pref post typed Hp Hq Ht) as [A _].
+  destruct (led_input pref post typed) as [rep post']. exact A.
+Qed.
+Lemma vi_indents_valid b r : buf_valid b -> line_valid (vi_indents (getl b r)).
+Proof. intro H. unfold vi_indents. apply span_blank_valid, optl_valid, H. Qed.
+Lemma region_text_valid b g : buf_valid b -> line_valid (region_text b g).
+Proof. intro H. unfold region_text. destruct (g_ln g); apply lbuf_region_valid, H. Qed.
+
+(* the commands *)
+Lemma finish_valid rows b R s md : buf_valid b -> regs_valid R -> est_valid (finish rows b R s md).
+Proof. intros. split; assumption. Qed.
+Lemma vi_change_valid rows b R s y g typed : buf_valid b -> regs_valid R -> line_valid typed -> est_valid (vi_change rows b R s y g typed).
+Proof.
+  intros Hb HR Ht. unfold vi_change.
+  set (pref := if g_ln g then _ else _). set (post := if g_ln g || _ then _ else _).
+  assert (Hp : line_valid pref) by (unfold pref; destruct (g_ln g); [apply vi_indents_valid, Hb|apply sub_l_valid, optl_valid, Hb]).
+  assert (Hq : line_valid post) by (unfold post; destruct (_ || _); [apply nl_line_valid|apply sub_l_valid, optl_valid, Hb]).
+  pose proof (vi_input_valid pref post typed Hp Hq Ht) as V.
+  destruct (vi_input pref post typed) as [[[rep row] off] nls]. cbn [fst] in V.
+  apply finish_valid; [apply lbuf_edit_valid; assumption|apply reg_put_valid; [exact HR|apply flat_valid, region_text_valid, Hb]].
+Qed.
+Lemma vi_case_valid rows b R s g op : buf_valid b -> regs_valid R -> est_valid (vi_case rows b R s g op).
+Proof.
+  intros Hb HR. unfold vi_case. apply finish_valid; [|exact HR].
+  pose proof (lv_map_case op _ (region_text_valid b g Hb)) as V.
+  destruct (g_ln g); apply lbuf_edit_valid; try exact Hb; [exact V|].
+  apply lv_app; [apply sub_l_valid, optl_valid, Hb|]. apply lv_app; [exact V|apply sub_l_valid, optl_valid, Hb].
+Qed.
+Lemma shift_line_valid right l : line_valid l -> line_valid (shift_line right l).
+Proof.
+  intro H. unfold shift_line. destruct right; destruct l as [|c r]; try assumption.
+  - destruct (is_nlb c); [assumption|]. apply lv_cons; [apply ascii_valid; lia|assumption].
+  - destruct (is_blankc c); [eapply lv_tl; eassumption|assumption].
+Qed.
+Lemma shift_rows_valid right n : forall i b, buf_valid b -> buf_valid (shift_rows right n i b).
+Proof.
+  induction n as [|n IH]; intros i b Hb; cbn [shift_rows]; [exact Hb|]. apply IH.
+  destruct (getl b i) as [l|] eqn:E; [|exact Hb]. apply lbuf_edit_valid; [exact Hb|]. apply shift_line_valid.
+  pose proof (optl_valid b i Hb) as V. rewrite E in V. exact V.
+Qed.
+Lemma vi_shift_valid rows b R s g right : buf_valid b -> regs_valid R -> est_valid (vi_shift rows b R s g right).
+Proof. intros Hb HR. unfold vi_shift. apply finish_valid; [apply shift_rows_valid, Hb|exact HR]. Qed.
+
+Lemma exec_op_valid rows e y a1 op a2 t typed e' : est_valid e -> line_valid typed ->
+  exec_op rows e y a1 op a2 t typed = Some e' -> est_valid e'.
+Proof.
+  intros [Hb HR] Ht X. unfold exec_op in X. destruct (op_target _ _ _ _ _ _ _) as [|cl cc|k r2 o2 cl cc pc]; [discriminate| |].
+  - inversion X; subst. apply finish_valid; assumption.
+  - inversion X; subst. clear X. set (g := vc_region _ _ _ _ _ _).
+    destruct op; try (apply vi_shift_valid; assumption); try (apply vi_case_valid; assumption); try (apply vi_change_valid; assumption).
+    + pose proof (vi_delete_valid (s_buf e) (s_regs e) y g Hb) as V. destruct (vi_delete (s_buf e) (s_regs e) y g) as [b' R'] eqn:ED.
+      cbn [fst] in V. apply finish_valid; [exact V|].
+      unfold vi_delete in ED. destruct (g_ln g); inversion ED; subst; apply reg_put_valid; try exact HR; apply flat_valid, lbuf_region_valid, Hb.
+    + apply finish_valid; [exact Hb|]. unfold vi_yank. apply reg_put_valid; [exact HR|].
+      destruct (g_ln g); apply flat_valid, lbuf_region_valid, Hb.
+Qed.
+Lemma exec_put_valid rows e y a1 after : est_valid e -> est_valid (exec_put rows e y a1 after).
+Proof.
+  intros [Hb HR]. unfold exec_put. destruct (reg_get (s_regs e) y) as [[txt ln]|] eqn:EG; [|apply finish_valid; assumption].
+  destruct txt as [|c0 tl]; [apply finish_valid; assumption|].
+  pose proof (chop_valid _ (reg_get_valid _ _ _ _ HR EG)) as V. set (txt := c0 :: tl) in *. clearbody txt.
+  destruct ln; apply finish_valid; try exact HR.
+  - apply lbuf_edit_valid; [|apply lv_repeat_app, V]. destruct (_ =? 0); [|exact Hb]. apply lbuf_edit_valid; [exact Hb|apply nl_line_valid].
+  - set (ln := if _ <? _ then _ else _).
+    assert (Hl : line_valid ln) by (unfold ln; destruct (_ <? _); [apply optl_valid, Hb|apply nl_line_valid]).
+    apply lbuf_edit_valid; [exact Hb|]. apply lv_app; [apply sub_l_valid, Hl|]. apply lv_app; [apply lv_repeat_app, V|apply sub_l_valid, Hl].
+Qed.
+Lemma join_loop_valid ls : forall first sb off, buf_valid ls -> line_valid sb -> line_valid (fst (join_loop ls first sb off)).
+Proof.
+  induction ls as [|l r IH]; intros first sb off Hl Hs; cbn [join_loop]; [exact Hs|].
+  inversion Hl; subst. apply IH; [assumption|]. apply lv_app; [exact Hs|]. apply lv_app; [apply lv_repeat; lia|].
+  unfold body_of. apply lv_removelast. destruct first; [assumption|apply span_blank_valid; assumption].
+Qed.
+Lemma exec_join_valid rows e a1 : est_valid e -> est_valid (exec_join rows e a1).
+Proof.
+  intros [Hb HR]. unfold exec_join. destruct (getl _ _); [|apply finish_valid; assumption]. destruct (getl _ _); [|apply finish_valid; assumption].
+  pose proof (join_loop_valid (rows_between (s_buf e) (v_row (s_vs e)) (v_row (s_vs e) + (if a1 <=? 1 then 2 else a1))) true [] 0) as V.
+  destruct (join_loop _ true [] 0) as [sb off]. cbn [fst] in V.
+  apply finish_valid; [|exact HR]. apply lbuf_edit_valid; [exact Hb|]. apply lv_app; [|apply nl_line_valid].
+  apply V; [|apply lv_nil]. unfold rows_between, buf_valid. apply Forall_firstn', Forall_skipn', Hb.
+Qed.
+Lemma exec_replace_valid rows e a1 cs : est_valid e -> chr_valid cs -> est_valid (exec_replace rows e a1 cs).
+Proof.
+  intros [Hb HR] Hc. unfold exec_replace. destruct (getl (s_buf e) (v_row (s_vs e))) as [ln|] eqn:E; [|apply finish_valid; assumption].
+  pose proof (optl_valid (s_buf e) (v_row (s_vs e)) Hb) as V. rewrite E in V. cbn [optl] in V.
+  destruct (_ || _); [apply finish_valid; assumption|].
+  assert (W : buf_valid (lbuf_edit (s_buf e) (Some (sub_l ln 0 (ren_noeol (Some ln) (v_off (s_vs e))) ++
+      repeat_app (Z.to_nat (Z.max 1 a1)) [cs] ++ sub_l ln (ren_noeol (Some ln) (v_off (s_vs e)) + Z.max 1 a1) (-1))) (v_row (s_vs e)) (v_row (s_vs e) + 1))).
+  { apply lbuf_edit_valid; [exact Hb|]. apply lv_app; [apply sub_l_valid, V|]. apply lv_app; [|apply sub_l_valid, V].
+    apply lv_repeat_app, lv_cons; [exact Hc|apply lv_nil]. }
+  destruct (is_nlb cs); apply finish_valid; assumption.
+Qed.
+Lemma exec_insert_valid rows e k typed : est_valid e -> line_valid typed -> est_valid (exec_insert rows e k typed).
+Proof.
+  intros [Hb HR] Ht. unfold exec_insert.
+  set (oln := getl (s_buf e) (v_row (s_vs e))).
+  set (line_ins := match oln with Some _ => negb (is_oO k) | None => false end).
+  set (off := match oln with Some (c :: _) => if is_nlb c then 0 else _ | _ => _ end).
+  set (pref := if line_ins then _ else _). set (post := if line_ins then _ else _).
+  assert (Hp : line_valid pref) by (unfold pref; destruct line_ins; [apply sub_l_valid, optl_valid, Hb|apply vi_indents_valid, Hb]).
+  assert (Hq : line_valid post) by (unfold post; destruct line_ins; [apply sub_l_valid, optl_valid, Hb|apply nl_line_valid]).
+  pose proof (vi_input_valid pref post typed Hp Hq Ht) as V.
+  destruct (vi_input pref post typed) as [[[rep row] off'] nls]. cbn [fst] in V.
+  destruct (nextlines rows nls _) as [xrow top']. apply finish_valid; [|exact HR].
+  apply lbuf_edit_valid; [|exact V]. destruct (_ && _); [|exact Hb]. apply lbuf_edit_valid; [exact Hb|apply nl_line_valid].
+Qed.
+
+Lemma exec1_valid rows c e e' : est_valid e -> cmd_valid c -> exec1 rows c e = Some e' -> est_valid e'.
+Proof.
+  intros He Hc X. destruct c; cbn [exec1 cmd_valid] in *.
+  - inversion X; subst. destruct He. split; assumption.
+  - destruct (do_motion _ _ _ _ _ _); inversion X; subst. destruct He. split; assumption.
+  - eapply exec_op_valid; eassumption.
+  - inversion X; subst. apply exec_put_valid, He.
+  - inversion X; subst. apply exec_join_valid, He.
+  - inversion X; subst. apply exec_replace_valid; assumption.
+  - inversion X; subst. apply exec_insert_valid; assumption.
+Qed.
+Lemma exec_valid rows cs : forall e e', est_valid e -> Forall cmd_valid cs -> exec rows cs e = Some e' -> est_valid e'.
+Proof.
+  induction cs as [|c cs IH]; intros e e' He Hc X; cbn [exec] in X; [inversion X; subst; exact He|].
+  inversion Hc; subst. destruct (exec1 rows c e) as [e1|] eqn:E1; [|discriminate].
+  eapply IH; [eapply exec1_valid; eassumption|assumption|exact X].
+Qed.
+(* the bytes of every line and of every register *)
+Lemma est_valid_bytes e : est_valid e ->
+  Forall (fun l => valid (flat l)) (s_buf e) /\ (forall c t ln, reg_get (s_regs e) c = Some (t, ln) -> valid t).
+Proof.
+  intros [Hb HR]. split.
+  - unfold buf_valid in Hb. eapply Forall_impl; [|exact Hb]. intros l Hl. apply flat_valid, Hl.
+  - intros c t ln H. eapply reg_get_valid; eassumption.
+Qed.
+Lemma exec_utf8 rows cs e e' : est_valid e -> Forall cmd_valid cs -> exec rows cs e = Some e' ->
+  est_valid e' /\ Forall (fun l => valid (flat l)) (s_buf e') /\ (forall c t ln, reg_get (s_regs e') c = Some (t, ln) -> valid t).
+Proof.
+  intros He Hc X. pose proof (exec_valid rows cs e e' He Hc X) as V. split; [exact V|]. apply est_valid_bytes, V.
+Qed.
+Lemma init_est_valid b : buf_valid b -> est_valid (init_est b).
+Proof. intro H. split; [exact H|apply regs0_valid]. Qed.
